@@ -3,11 +3,16 @@ PROPS["C11"] = dict(
     technique="structural-invariant PBT: the internal list of the ordered map / of the cache's recency list is walked through an overlay accessor after every generated step (node count, reference counts, deleted nodes), over C10's and C08's generators plus long cache histories; "
               "plus a reachability oracle that never looks inside: keys and values are pointers to harness-owned heap objects, removed ones are held through weak pointers only, and after forced garbage collections all but a constant number of them must be gone while the container is alive",
     rule="map part: C10's cases (canonical exhaustive lists for (2 keys, 2 iterators) and (3 keys, 3 iterators) to the depths in exhaustive_parts, plus rapid "
-         "lists with 2..300 (one case in 40, thorough 80: 1500..5000) keys, up to 24 open iterators and bulk ops that Run expands into single calls); VerifWalk must show: list well linked and ending "
-         "in the sentinel, nodes == Len()+1+deleted, deleted <= open iterators, refSum == open iterators, and with no iterator open nodes == Len()+1 and "
+         "lists with 2..300 (one case in 40, thorough 80: 1500..5000) keys, up to 24 open iterators and bulk ops that Run expands into single calls; the op 'remat' = Remove of the entry open iterator #i would return next, "
+         "i.e. the entry it is parked on, so that removal under a parked iterator is as likely on hundreds of entries as on three; one case in 6 (2..300 keys) is a list of 1..4 GROWTH-THEN-SHRINK PHASES: add a drawn key range (a few ... the whole alphabet), "
+         "open 1..3 (or up to the case's bound) iterators and advance each a drawn distance, remat under some of them, 1..3 range removals of drawn extent (down to a few entries, to half, to nothing) while the iterators stay parked, "
+         "close all (three phases in four; otherwise they stay for the next phase), use the map again; 0..3 ops of the general generator between the stages). VerifWalk must show: list well linked and ending "
+         "in the sentinel, every live node indexed by the key table and the key table no bigger than the live nodes, nodes == Len()+1+deleted, deleted <= open iterators, refSum == open iterators, nodes-1-deleted == live entries of the history (model), and with no iterator open nodes == Len()+1 and "
          "deleted == 0. The walk is O(nodes): on a small map (<= 8 keys and <= 8 open iterators) it follows every single call; on a bigger one it follows "
          "every max(16, live/4)-th single call, every op of the list (beyond 1024 keys: every bulk op; a bulk op stands for up to Keys calls, a churn up to 9*Keys), every "
-         "final Close and the end of the case. non-trivial = an "
+         "final Close and the end of the case. The functional oracle of C10 (Len, Get, iteration against the model) is consulted before the walk; when it disagrees the verdict on that is C10's, but the structure is still judged: "
+         "walk at the point of the divergence, after the Close of every iterator still open, and at quiescence (POST-MORTEM; class map_structure_evaluated_after_functional_divergence) - a structural violation found there is reported, otherwise the case "
+         "is cut short as before. Classes drained_* count the Removes that left <= 1/4 of a peak >= 16 (>= 100) live with 1 / 2-3 / >= 4 iterators parked on removed entries, all_iterators_closed_after_drain_* the quiescent points reached after them. non-trivial = an "
          "iterator was closed on, or advanced off, an entry that was removed while it was parked there. "
          "LRU part: the C08 case generator (all four cache shapes - also the one with an interface-typed value and creations that return nil -, capacities 1-8, 64 and the 'unbounded' ones up to math.MaxInt, for which the checkpoint bound is computed without overflow) plus long histories = a drawn pattern of up to 61 calls heavy on "
          "Clear/Remove/re-insert, repeated with a rotating key shift to 10^3..10^5 calls (quick at most 2*10^4), capacities 1..8, including re-entrant create functions (nested calls on other keys, as in C08) and caller-recycled PK buffers in the ecache shape; after construction, after "
@@ -23,7 +28,7 @@ PROPS["C11"] = dict(
          "lru.Cache[*Obj,*Obj], lru.ECache[*Obj PK, comparable struct inner key holding a pointer, *Obj], lru.ExpirableCache[*Obj,*Obj]; slots from {8,64,200,1000,4000}, one case in 12 20000 (thorough: or 100000); cache capacity from "
          "{slots, 2*slots, slots/2, slots/10}, one cache case in ten from {math.MaxInt, math.MaxInt-1, 2^40, 2^31, 2^16} (a cache that never evicts: entries leave by Remove / Clear / expiry replacement only; same bounds). Ops (slot ranges modulo slots, every list executable): add = insert a FRESH key/value/PK object for every absent slot of a range; thin = remove the present slots of a range except every stride-th "
          "(stride from {0=none survives,2,3,7,16,50,63,64,65,100,128,257,1000} or anything up to slots, any offset, either direction); touch = cache hit (unlink+relink) / map Remove+Add; clear = Clear() of the cache / the same iterator-and-Remove loop on the map; "
-         "expire (expirable kind: the next touch replaces the entry); maps: open 1..8 iterators spaced over the map, advance all, close all; gc = measurement point; take / put = remove the first 1..64 present / insert into the first 1..64 absent slots "
+         "expire (expirable kind: the next touch replaces the entry); maps: open 1..24 (mostly 1..3 or 1..8) iterators spaced over the map, advance all, close all; gc = measurement point; take / put = remove the first 1..64 present / insert into the first 1..64 absent slots "
          "found from a drawn position (a cache at capacity evicts for each put); flight (caches) = for each of the first N (1..3 or 9..64) absent slots: GetOrCreate(fresh key) runs on a second goroutine and is parked inside the create function, while it is "
          "in flight the first goroutine calls Remove(that key) or Clear() (drawn), then the creation is released and fails (all of them, or all but every 2nd / 3rd, which succeed and are live entries); one creation at a time, the second goroutine has ended "
          "before the op returns; the key/PK objects of a failed creation were never stored and count as objects of a removed entry from then on. Three cases in four (caches: four in five) begin with fill-all then thin (maps: optionally with parked iterators) or fill-all, clear, "
@@ -64,7 +69,8 @@ PROPS["C11"] = dict(
 LEVEL_TEXT["C11"] = (
     "A leak of one list node per call is invisible to functional assertions, so the check counts nodes: after every step of generated map "
     "histories (exhaustive to a depth, random beyond) and of generated cache histories up to 10^5 calls, the internal list must hold exactly the "
-    "live entries, the sentinel and the entries pinned by open iterators, with matching reference counts, and for the cache the node count must "
+    "live entries, the sentinel and the entries pinned by open iterators, with matching reference counts and a key index that holds exactly the live nodes (also in histories that grow to hundreds of entries and shrink to a few while iterators stay parked on removed entries; "
+    "when the functional oracle disagrees first, the structure is still judged at that point and with every iterator closed), and for the cache the node count must "
     "not depend on the history length. What is kept outside that list (free lists, slabs, stale fields) is asked of the garbage collector: in generated histories whose peak is far above "
     "the final size (fill, thin out to evenly spread survivors, Clear and re-use; maps with parked iterators; all three caches) the keys/values/PKs of removed entries, held by the harness through "
     "weak pointers only, must be collected - all values and primary keys, all but 8 keys, plus the open iterators, whatever the size - while the container is alive; the histories also end right after a removal or eviction followed by exactly one insertion, "
